@@ -1,4 +1,71 @@
-From Coq Require Import ZArith List Bool.
-From PW Require Import Model.Base Model.Options.
-Theorem C15_placeholder : True. Proof. exact I. Qed.
-Print Assumptions C15_placeholder.
+(* C15 — Generated options: fresh unpredictable challenges, caller values unchanged. *)
+From Coq Require Import ZArith List Bool String.
+From PW Require Import Model.Base Model.Options Generated.Constants Proofs.OptionsProofs.
+Import ListNotations.
+Open Scope Z_scope.
+
+(* `draw i` is the i-th 64-byte value the OS random source yields (as secrets.token_bytes returns it); the generators
+   are functions of (arguments, draw, position) ONLY - the state of the `random` module is not an input *)
+Theorem C15_registration_options : forall draw a n o n', gen_reg draw a n = Ok (o, n') ->
+  ra_rp_id a <> [] /\ ra_rp_name a <> [] /\ ra_user_name a <> [] /\
+  co_rp_id o = Some (ra_rp_id a) /\ co_rp_name o = ra_rp_name a /\ co_user_name o = ra_user_name a /\
+  co_timeout o = Some (ra_timeout a) /\ co_attestation o = Some (ra_attestation a) /\ co_hints o = ra_hints a /\
+  co_display_name o = match opt_nonempty (ra_display_name a) with Some d => d | None => ra_user_name a end /\
+  co_params o = match opt_nonempty (ra_algs a) with Some l => params_of l | None => params_of default_algs_generator end /\
+  co_exclude o = Some (match opt_nonempty (ra_exclude a) with Some l => l | None => [] end) /\
+  n' = (n + b2n (defaulted (ra_user_id a)) + b2n (defaulted (ra_challenge a)))%nat /\
+  co_user_id o = match opt_nonempty (ra_user_id a) with Some u => u | None => draw n end /\
+  co_challenge o = match opt_nonempty (ra_challenge a) with Some c => c | None => draw (n + b2n (defaulted (ra_user_id a)))%nat end /\
+  co_auth_sel o = option_map fix_sel (ra_auth_sel a).
+Proof. exact gen_reg_spec. Qed.
+Print Assumptions C15_registration_options.
+
+(* attachment / residentKey / userVerification unchanged; residentKey = required implies requireResidentKey = true *)
+Theorem C15_resident_key_rule : forall s, let s' := fix_sel s in
+  as_attachment s' = as_attachment s /\ as_resident_key s' = as_resident_key s /\ as_uv s' = as_uv s /\
+  (as_resident_key s = Some (s2l "required") -> as_require_rk s' = Some true) /\
+  (as_resident_key s <> Some (s2l "required") -> as_require_rk s' = as_require_rk s).
+Proof. exact fix_sel_spec. Qed.
+Print Assumptions C15_resident_key_rule.
+
+Theorem C15_authentication_options : forall draw a n o n', gen_auth draw a n = Ok (o, n') ->
+  aa_rp_id a <> [] /\ ro_rp_id o = Some (aa_rp_id a) /\ ro_timeout o = Some (aa_timeout a) /\ ro_uv o = Some (aa_uv a) /\
+  ro_allow o = Some (match opt_nonempty (aa_allow a) with Some l => l | None => [] end) /\
+  n' = (n + b2n (defaulted (aa_challenge a)))%nat /\
+  ro_challenge o = match opt_nonempty (aa_challenge a) with Some c => c | None => draw n end.
+Proof. exact gen_auth_spec. Qed.
+Print Assumptions C15_authentication_options.
+
+Theorem C15_refusals : forall draw,
+  (forall a n, ra_rp_id a = [] \/ ra_rp_name a = [] \/ ra_user_name a = [] -> gen_reg draw a n = Err (Py ValueError)) /\
+  (forall a n, aa_rp_id a = [] -> gen_auth draw a n = Err (Py ValueError)).
+Proof. intros draw. split; [apply gen_reg_refuses|apply gen_auth_refuses]. Qed.
+Print Assumptions C15_refusals.
+
+(* every history of generator calls: the position on the OS source only moves forward, by exactly one draw per
+   defaulted value of each accepted call (induction over the history) *)
+Theorem C15_history_positions : forall draw h n, (n <= fold_left (step draw) h n)%nat.
+Proof. exact history_positions. Qed.
+Print Assumptions C15_history_positions.
+Theorem C15_step_count : forall draw n c, step draw n c = (n + (if accepted draw n c then draws_of c else 0))%nat.
+Proof. exact step_count. Qed.
+Print Assumptions C15_step_count.
+
+(* never repeat: when distinct positions of the OS source hold distinct values (premise), two defaulted challenges
+   at different points of ANY history differ *)
+Theorem C15_fresh : forall draw (h1 h2 : list call) (a b : auth_args) n o1 o2 m1 m2,
+  (forall i j, draw i = draw j -> i = j) ->
+  let p1 := fold_left (step draw) h1 n in
+  let p2 := fold_left (step draw) h2 (step draw p1 (CAuth a)) in
+  aa_challenge a = None -> aa_challenge b = None ->
+  gen_auth draw a p1 = Ok (o1, m1) -> gen_auth draw b p2 = Ok (o2, m2) -> ro_challenge o1 <> ro_challenge o2.
+Proof. exact fresh_challenges. Qed.
+Print Assumptions C15_fresh.
+
+(* the algorithms offered by default are exactly those verification accepts by default (regenerated constants,
+   incl. what a call with no algorithm list actually returns) *)
+Theorem C15_default_algorithms :
+  default_algs_generator = default_algs_verifier /\ map snd default_params_offered = default_algs_verifier /\
+  default_params_generator = default_params_offered.
+Proof. exact default_algs_agree. Qed.
+Print Assumptions C15_default_algorithms.
